@@ -66,6 +66,12 @@ def run_job(job):
     sc['entry_dist'] = wide / 2
     sc['update_kinds'] = [x for x in sc['update_kinds'] if x != 'near_tp'] or ['trail_sl']
     sc['observe'] = 'light'
+    if job['i'] % 4 == 2 and spec['config']['type'] == 'futures':
+        # a resting entry whose fill callback scales in with a MARKET order (priced from the position's mark price at the fill)
+        sc['entry'] = rng.choice(['limit', 'stop'])
+        sc['on_open_add'] = 0.5
+        sc['on_increased'] = 'retarget'
+        sc['p_open_liquidate'] = None
     if job['i'] % 2 == 1:
         sc['decide_on_ohl'] = True     # a strategy that reads open/high/low of its trading candles
     if sc.get('lattice'):
